@@ -33,15 +33,22 @@ import (
 // validatePresentationSigner checks if the presenter of the VP is the same as the subject of the VCs being presented.
 // All returned errors can be used as description in an OAuth2 error.
 func validatePresentationSigner(presentation vc.VerifiablePresentation, expectedCredentialSubjectDID did.DID) (*did.DID, error) {
+	var subjectDID *did.DID
+	var err error
 	if len(presentation.VerifiableCredential) == 0 {
-		return credential.PresentationSigner(presentation)
-	}
-	subjectDID, err := credential.PresenterIsCredentialSubject(presentation)
-	if err != nil {
-		return nil, err
-	}
-	if subjectDID == nil {
-		return nil, errors.New("presentation signer is not credential subject")
+		// no credentials to derive the subject from: the signer takes its place.
+		subjectDID, err = credential.PresentationSigner(presentation)
+		if err != nil {
+			return nil, err
+		}
+	} else {
+		subjectDID, err = credential.PresenterIsCredentialSubject(presentation)
+		if err != nil {
+			return nil, err
+		}
+		if subjectDID == nil {
+			return nil, errors.New("presentation signer is not credential subject")
+		}
 	}
 	if !expectedCredentialSubjectDID.Empty() && !subjectDID.Equals(expectedCredentialSubjectDID) {
 		return nil, errors.New("not all presentations have the same credential subject ID")
